@@ -410,6 +410,9 @@ func node1Main(args []string) int {
 		}
 		g := &node1Gen{rnd: rnd, w: w, n: n, dir: dir, opt: opt}
 		for k := 0; k < nsteps; k++ {
+			if g.n.stopped {
+				break // the node shut itself down (stateLoop returned): nothing handles events any more
+			}
 			if err := g.step(); err != nil {
 				errs = append(errs, fmt.Sprintf("sequence %d step %d: %v", s, k, err))
 				break
